@@ -219,9 +219,14 @@ class Categorize(Factory, Container):
             if not isinstance(q, (basestring, bool)):
                 raise TypeError(f"function return value ({q}) must be a string or bool")
 
-            if q not in self.bins:
-                self.bins[q] = self.value.zero()
-            self.bins[q].fill(datum, weight)
+            sub = self.bins.get(q)
+            if sub is None:
+                sub = self.value.zero()
+                sub.fill(datum, weight)
+                # a new bin appears only if its fill did not raise (for rollback)
+                self.bins[q] = sub
+            else:
+                sub.fill(datum, weight)
 
             # no possibility of exception from here on out (for rollback)
             self.entries += weight
